@@ -12,11 +12,13 @@ pub struct RenderOpts {
     pub enum_derives: String,
     /// field doc comments are written after the bit/bits attribute instead of before it
     pub docs_after_attr: bool,
+    /// attribute line placed between #[bitfield(..)] and the struct (passed through by the macro)
+    pub struct_derives: String,
 }
 
 impl Default for RenderOpts {
     fn default() -> Self {
-        RenderOpts { docs: false, vis_pub: true, enum_derives: "#[derive(Debug, PartialEq, Eq)]".to_string(), docs_after_attr: false }
+        RenderOpts { docs: false, vis_pub: true, enum_derives: "#[derive(Debug, PartialEq, Eq)]".to_string(), docs_after_attr: false, struct_derives: String::new() }
     }
 }
 
@@ -133,10 +135,22 @@ pub fn ty_text(l: &Layout, ty: &FieldTy) -> String {
 }
 
 pub fn rng_text(r: &Rng) -> String {
-    if r.short && r.lo == r.hi {
-        format!("{}", r.lo)
+    rng_text_p(r, false)
+}
+
+fn num(n: u64, pad: bool) -> String {
+    if pad {
+        format!("0{}", n)
     } else {
-        format!("{}..={}", r.lo, r.hi)
+        format!("{}", n)
+    }
+}
+
+pub fn rng_text_p(r: &Rng, pad: bool) -> String {
+    if r.short && r.lo == r.hi {
+        num(r.lo as u64, pad)
+    } else {
+        format!("{}..={}", num(r.lo as u64, pad), num(r.hi as u64, pad))
     }
 }
 
@@ -144,7 +158,7 @@ pub fn field_attr(f: &Field) -> String {
     let kw = if f.kw_bit { "bit" } else { "bits" };
     let huge_hi0 = f.huge.as_ref().filter(|h| h.part == "hi0").map(|h| h.value);
     let range = if f.list {
-        let mut inner: Vec<String> = f.ranges.iter().map(rng_text).collect();
+        let mut inner: Vec<String> = f.ranges.iter().map(|r| rng_text_p(r, f.zero_pad)).collect();
         if let Some(v) = huge_hi0 {
             inner[0] = format!("{}..={}", f.ranges[0].lo, v);
         }
@@ -152,13 +166,14 @@ pub fn field_attr(f: &Field) -> String {
     } else if let Some(v) = huge_hi0 {
         format!("{}..={}", f.ranges[0].lo, v)
     } else {
-        rng_text(&f.ranges[0])
+        rng_text_p(&f.ranges[0], f.zero_pad)
     };
     let access = f.access.text().map(|a| a.to_string());
     let huge_stride = f.huge.as_ref().filter(|h| h.part == "stride").map(|h| h.value);
     let stride = f.array.as_ref().and_then(|a| {
         let st: Option<u64> = huge_stride.or(a.stride.map(|x| x as u64));
-        st.map(|st| if a.colon { format!("stride: {}", st) } else { format!("stride = {}", st) })
+        let pad = f.zero_pad && huge_stride.is_none();
+        st.map(|st| if a.colon { format!("stride: {}", num(st, pad)) } else { format!("stride = {}", num(st, pad)) })
     });
     // (range, access, stride) in one of the six orders
     let perm: [usize; 3] = match f.arg_order % 6 {
@@ -194,7 +209,7 @@ pub fn render_field(l: &Layout, f: &Field, o: &RenderOpts) -> String {
         }
     }
     let t = match &f.array {
-        Some(a) => format!("[{}; {}]", t, a.count),
+        Some(a) => format!("[{}; {}]", t, num(a.count as u64, f.zero_pad)),
         None => t,
     };
     s.push_str(&format!("    {}: {},\n", f.name, t));
@@ -202,7 +217,10 @@ pub fn render_field(l: &Layout, f: &Field, o: &RenderOpts) -> String {
 }
 
 pub fn default_const_name(l: &Layout) -> String {
-    format!("DEF_{}", l.name.to_uppercase())
+    match l.default.as_ref().and_then(|d| d.const_name.clone()) {
+        Some(n) => n,
+        None => format!("DEF_{}", l.name.to_uppercase()),
+    }
 }
 
 /// Only the `#[bitfield(..)] struct ..` item (and its named default const), without aux types.
@@ -240,6 +258,10 @@ pub fn render_struct(l: &Layout, o: &RenderOpts) -> String {
         s.push_str("/// documented bitfield\n");
     }
     s.push_str(&format!("#[bitbybit::bitfield({})]\n", args.join(", ")));
+    if !o.struct_derives.is_empty() {
+        s.push_str(&o.struct_derives);
+        s.push('\n');
+    }
     let vis = if o.vis_pub { "pub " } else { "" };
     s.push_str(&format!("{}struct {} {{\n", vis, l.name));
     for f in &l.fields {
